@@ -110,7 +110,12 @@ Fixpoint gz_body (fuel : nat) (body : list Z) (acc : list Z) : option (list Z) :
         if negb ((le32 [c0; c1; c2; c3] =? crc32 data) && (le32 [s0; s1; s2; s3] =? zlen data mod 4294967296)) then None
         else
           let acc' := acc ++ data in
-          if bgzf_MaxBlockSize <? zlen acc' then None
+          if bgzf_MaxBlockSize <? zlen acc' then
+            (* readToEOF: the block buffer holds MaxBlockSize bytes; when it is full the
+               extra one-byte read (guarded by `n == bgzf_readToEOF_guard`) finds more data
+               and reports io.ErrShortBuffer.  With any other guard constant the first
+               MaxBlockSize bytes would be accepted unchecked. *)
+            (if bgzf_readToEOF_guard =? bgzf_MaxBlockSize then None else Some (firstn (Z.to_nat bgzf_MaxBlockSize) acc'))
           else match rest2 with
                | [] => Some acc'
                | _ => match gz_header rest2 with
